@@ -809,6 +809,48 @@ def directed_plans(prop, profile):
   return []
 
 
+def _binom_tail(n, p, k):
+  """P[Bin(n, p) >= k] (exact, 60 digits)."""
+  if k <= 0:
+    return mpmath.mpf(1)
+  q = mpmath.mpf(0)
+  for j in range(k, n + 1):
+    q += mpmath.binomial(n, j) * mpmath.mpf(p) ** j * \
+        (1 - mpmath.mpf(p)) ** (n - j)
+  return q
+
+
+def cross_run(prop, results):
+  """'p-values are not systematically small': over all end-to-end runs on the
+  good generators, per sub-test, the number of p-values <= alpha must be
+  compatible with Bin(N, alpha) (one-sided, level 1e-9, so that this check
+  itself has a negligible false-alarm rate)."""
+  pv = {}
+  for r in results:
+    if not r["ok"] or r["profile"] != "e2e":
+      continue
+    for name, vals in r["stats"].get("pvalues", []):
+      pv.setdefault(name, []).extend(vals)
+  viol = []
+  for name in sorted(pv):
+    vals = pv[name]
+    n = len(vals)
+    if n < 8:
+      continue
+    for alpha in (0.01, 0.001):
+      k = sum(1 for x in vals if x <= alpha)
+      tail = _binom_tail(n, alpha, k)
+      if tail < mpmath.mpf("1e-9"):
+        viol.append(_v("pvalues_systematically_small", None, name,
+                       "%s: %d of %d p-values on cryptographic generators are "
+                       "<= %g (binomial tail %.3g)" %
+                       (name, k, n, alpha, float(tail)),
+                       {"alpha": alpha, "count": k, "n": n,
+                        "smallest": sorted(vals)[:8]}))
+        break
+  return viol
+
+
 def minimise(plan, violation, deadline):
   from dst import runner
   if plan["profile"] == "e2e":
